@@ -756,10 +756,10 @@ pub fn run(ctx: &Ctx) {
         run_explicit(ctx, "witness", p, &wit, &dir);
         run_explicit(ctx, "stress", p, &fam, &dir);
     }
-    run_search(ctx, "hostile", "release", ctx.n(300_000, 12_000_000), &dir);
-    run_search(ctx, "conformant", "release", ctx.n(60_000, 2_000_000), &dir);
-    run_search(ctx, "hostile", "o0", ctx.n(40_000, 3_000_000), &dir);
-    run_search(ctx, "conformant", "o0", ctx.n(10_000, 500_000), &dir);
+    run_search(ctx, "hostile", "release", ctx.n(400_000, 40_000_000), &dir);
+    run_search(ctx, "conformant", "release", ctx.n(80_000, 8_000_000), &dir);
+    run_search(ctx, "hostile", "o0", ctx.n(50_000, 8_000_000), &dir);
+    run_search(ctx, "conformant", "o0", ctx.n(12_000, 2_000_000), &dir);
     let _ = std::fs::remove_dir_all(&dir);
 }
 
